@@ -872,6 +872,7 @@ Inductive op : Type :=
 | OSetAttrNested (name : Z) (vss : list (list Z))  (* obj.name = [[..], [..]] : a list of lists (a fresh list holding fresh lists) *)
 | OSetAttrSet (name : Z) (vs : list Z)             (* obj.name = {..} : a set (the elements in a canonical order) *)
 | OSetAttrDict (name : Z) (kvs : list (Z * Z))     (* obj.name = {k: v, ..} : a dict of scalars *)
+| OSetAttrDictOfLists (name : Z) (kvss : list (Z * list Z))   (* obj.name = {k: [..], ..} : a dict whose values are lists *)
 | OReplaceSeries (name : Z) (vs : list Z).         (* obj.name = <ndarray> : an array is no Sequence, so __setattr__ writes its
                                                       VALUES in place (self._name[:] = value); a shape mismatch raises *)
 
@@ -970,6 +971,13 @@ Definition compile_op (K : consts) (h : heap) (r : loc) (o : op) : list action :
     if zmem x (scalars_path h r [A N_index]) then []
     else if zmem x (scalars_path h r [A N_attributes]) then [ASet [] (A x) s]
     else if own_scalar h r (A N_strict) =? k_false K then add_attribute_acts x s
+    else []
+  | OSetAttrDictOfLists name kvss =>
+    let x := resolve_alias h r name in
+    let inner := map (fun kv => ASet [A x] (fst kv) (new_list (snd kv))) kvss in
+    if zmem x (scalars_path h r [A N_index]) then []
+    else if zmem x (scalars_path h r [A N_attributes]) then ASet [] (A x) (SFresh KDict []) :: inner
+    else if own_scalar h r (A N_strict) =? k_false K then add_attribute_acts x (SFresh KDict []) ++ inner
     else []
   | OSetAttrDict name kvs =>
     let x := resolve_alias h r name in
